@@ -304,7 +304,6 @@ struct decode_traits<T,
                     {
                         v.push_back(static_cast<element_type>(ch));
                     }
-                    cursor.next(ec);
                     return result_type{std::move(v)};
                 }
                 else
